@@ -48,16 +48,16 @@ def _fn_name(e):
 
 def parser_table(db):
     """[(field, flag, parse_fn, skip_fn|None, detail)] in record order"""
-    f = db.one("parse", "WordInfoParser")
+    f = db.view(db.one("parse", "WordInfoParser"))
     rows = []
-    stmts = f.hir.get("stmts", [])
+    stmts = _linear_stmts(f.hir)
     i = 0
     pending_empty_check = False
     pending_removed = None
     while i < len(stmts):
         st = stmts[i]
         e = st.get("e") if st["k"] in ("Expr", "Semi") else None
-        if e is not None and e.get("k") == "If" and "is_empty" in render(e["cond"]) and exit_kind(e["then"]) in ("ok", "ret"):
+        if e is not None and e.get("k") == "If" and "is_empty" in render(e["cond"]) and exit_kind(e["then"]) in ("ok", "ret", "helper-ret"):
             pending_empty_check = True
             i += 1
             continue
@@ -77,6 +77,28 @@ def parser_table(db):
     if len(rows) < 8:
         raise AnchorMissing("WordInfoParser::parse field instances", "(%d found)" % len(rows))
     return f, rows
+
+
+def _linear_stmts(block):
+    """the statements of a body in execution order, looking into inlined helper blocks (a body moved into a private helper that
+    is called once is the same statement sequence)"""
+    out = []
+    b = peel(block)
+    if not isinstance(b, dict) or b.get("k") != "Block":
+        return out
+    items = list(b.get("stmts", []))
+    if "expr" in b:
+        items.append({"k": "Expr", "e": b["expr"], "_tail": True})
+    for st in items:
+        e = st.get("e") if st["k"] in ("Expr", "Semi") else (st.get("init") if st["k"] == "Let" and st.get("param_of") is None else None)
+        pe = peel(e) if isinstance(e, dict) else None
+        if st["k"] in ("Expr", "Semi") and isinstance(pe, dict) and pe.get("k") == "Block" and (pe.get("inl") or st.get("_tail")):
+            out += _linear_stmts(pe)
+        elif st["k"] == "Let" and st.get("param_of"):
+            continue
+        else:
+            out.append(st)
+    return out
 
 
 def _branch_info(block):
@@ -107,10 +129,15 @@ def _branch_info(block):
 def _field_instance(init, pre_removed):
     if init.get("k") == "If":
         c = peel(init["cond"])
+        neg = False
+        while c.get("k") == "Unary" and c.get("op") == "Not":
+            neg = not neg
+            c = peel(c["e"])
         if c.get("k") == "MethodCall" and c.get("method") == "contains":
             flag = flag_names(c["args"][0])
-            tfn, fld, removed = _branch_info(init["then"])
-            ffn, fld2, removed2 = _branch_info(init.get("else", {}))
+            yes, no = (init.get("else", {}), init["then"]) if neg else (init["then"], init.get("else", {}))
+            tfn, fld, removed = _branch_info(yes)
+            ffn, fld2, removed2 = _branch_info(no)
             return {"field": fld, "flag": flag, "parse": tfn, "skip": ffn, "removed": removed, "heavy": True,
                     "skip_assigns": fld2}
         return None
